@@ -2,10 +2,13 @@
 # Build cargo-vet's unit-test binary from /repo's working tree with the verification harness.
 # Prints the path of the test executable on the last line.
 set -o pipefail
-cd /repo
-export VET_VERIF_HARNESS=/verif/harness/mod.rs VET_VERIF_DIR=/verif/harness
-export CARGO_TARGET_DIR=/verif/.build/target CARGO_NET_OFFLINE=true RUSTFLAGS="-Awarnings"
-out=$(cargo test --offline --features verif --no-run --bin cargo-vet --message-format=json 2>/verif/.build/cargo.err) || { cargo test --offline --features verif --no-run --bin cargo-vet 2>&1 | grep -E "^error" -A 12 | head -80; exit 2; }
+HERE="$(cd "$(dirname "${BASH_SOURCE[0]}")" && pwd)"
+REPO="${VERIF_REPO:-/repo}"
+mkdir -p "$HERE/.build"
+cd "$REPO"
+export VET_VERIF_HARNESS=$HERE/harness/mod.rs VET_VERIF_DIR=$HERE/harness
+export CARGO_TARGET_DIR=$HERE/.build/target CARGO_NET_OFFLINE=true RUSTFLAGS="-Awarnings"
+out=$(cargo test --offline --features verif --no-run --bin cargo-vet --message-format=json 2>$HERE/.build/cargo.err) || { cargo test --offline --features verif --no-run --bin cargo-vet 2>&1 | grep -E "^error" -A 12 | head -80; exit 2; }
 echo "$out" | python3 -c "
 import sys, json
 exe=None
